@@ -1,7 +1,12 @@
 import Driver.Util
 import Mtv.Schema.C13Meth
+import Mtv.Schema.C13Enum
 namespace Driver.C13
 open Mtv Mtv.Schema Mtv.TL Mtv.Gen Mtv.C13 Driver
+
+def hex32 (n : Nat) : String :=
+  let ds := (Nat.toDigits 16 n)
+  String.ofList (List.replicate (8 - ds.length) '0' ++ ds)
 
 def names (ds : List Def) : String := showList (ds.map fun d => d.name.toString)
 
@@ -48,13 +53,23 @@ def report : String :=
   let nameTable := regNamesChunksOk registryChunks fieldNamesChunks &&
     (List.zip registry fieldNames).all fun (c, n) =>
       c.fields.map (·.name) == n.2.map fun x => (BStr.toString ⟨x.1, x.2⟩)
+  -- enum constants by name: members without their constant / with a constant of another id (member:Constant=id),
+  -- constants named after no member, String() cases with another text
+  let badEnum := (badEnumMembers.map fun d =>
+      match constsNamedAfter enumConsts d with
+      | [] => s!"{d.name.toString}:<no-constant>"
+      | [c] => s!"{d.name.toString}:{c.name.toString}={hex32 c.value}"
+      | cs => s!"{d.name.toString}:<{cs.length}-constants>") ++
+    ((badEnumConsts.filter fun c => (memberNamed schemaApi c).isNone).map fun c => s!"<no-member>:{c.name.toString}={hex32 c.value}") ++
+    (badEnumStrings.map fun s => s!"{s.ty.toString}.String({hex32 s.id}):{s.text.toString}")
+  let enumTables := enumTablesOk
   let dup := !(strictlySorted (registry.map (·.id)) && strictlySorted (schemaApi.map (·.id)) && strictlySorted (schemaMt.map (·.id)))
   s!"crc={names badCrc} api={names badApi} service={names badMt} rows={names badRows} " ++
   s!"reg={showList (badReg.map (·.name))} methods={showList (badMeth.map (·.name))} " ++
   s!"wrappers={showList (badWrap.map (·.name))} extra={showList extra} counts={tableCountsOk} dupids={dup} " ++
   s!"names={showList badNames} nametable={nameTable} " ++
   s!"skeleton={showList (badSkel.map skelText)} extra-field={showList extraFields} field-tag={showList badTags} " ++
-  s!"fieldtable={fieldTable} " ++
+  s!"fieldtable={fieldTable} enum-const={showList badEnum} enumtables={enumTables} " ++
   s!"ndefs={schemaApi.length + schemaMt.length} nreg={registry.length} nmethods={methods.length}"
 
 /-- `c13.e2e <Method>[/<Query>] <args> <size> <shape> <k>`: one end-to-end call of a client method against the
@@ -97,8 +112,20 @@ def grpExpect (m dir dn key pat : String) : Option String :=
     | none => none
   | _, _ => none
 
+/-- `c13.e2e.enum <Method> <dir> <Constant> <k>` (harness/cmd/vh/c13enum.go): the real client method is called with the
+enum constant `telegram.<Constant>` BY NAME in its arguments / the answer carries the id of the schema constructor
+the constant is named after. The driver checks the operation against the regenerated tables: the method is a row of
+the method table, the constant a row of `Mtv.Gen.enumConsts` (go/parser) that is named after an enum member of the
+schema; whether it carries that member's id is what the Go side observes (and `enum_constants_named` states). -/
+def enumExpect (m dir c : String) : Option String :=
+  if !(dir == "arg" || dir == "res") || !e2eKnown m then none else
+  match enumConsts.find? (fun e => e.name.toString == c) with
+  | some e => if (memberNamed schemaApi e).isSome then some s!"ok {m} {dir} {c}" else none
+  | none => none
+
 def handle : List String → String
   | ["c13.report"] => report
+  | ["c13.e2e.enum", m, dir, c, _k] => (enumExpect m dir c).getD "bad-op"
   | ["c13.e2e.grp", m, dir, dn, key, pat, _k] => (grpExpect m dir dn key pat).getD "bad-op"
   | ["c13.e2e", m, a, n, sh, _k] =>
     if (a == "z" || a == "p") && ["plain", "cont", "gz", "salt", "saltgz"].contains sh && e2eKnown m
